@@ -52,6 +52,7 @@ type vpC38Result struct {
 	call     *vpC38Call
 	t0, t1   time.Time
 	deadline time.Time
+	twin     atomic.Int64 // UnixNano at which a control timer with the same deadline fired (0: not yet)
 	err      error
 	hdrID    string
 	bodyOK   bool
@@ -154,66 +155,76 @@ func (c *vpC38Case) run() ([]string, string) {
 	}
 	var wgDeadline, wgAll sync.WaitGroup
 	start := make(chan struct{})
+	oneCall := func(k *vpC38Call) {
+		res := &vpC38Result{call: k}
+		req := AcquireRequest()
+		resp := AcquireResponse()
+		req.SetRequestURI("http://vp.test/r/" + strconv.Itoa(k.ID))
+		req.Header.Set("X-Vp-Id", strconv.Itoa(k.ID))
+		hist.add("call id=%d api=%d deadline=%dms start", k.ID, k.API, k.DeadlineMs)
+		var err error
+		t0 := time.Now()
+		d := time.Duration(k.DeadlineMs) * time.Millisecond
+		rmu.Lock()
+		res.t0, res.deadline = t0, t0.Add(d)
+		results = append(results, res)
+		rmu.Unlock()
+		var twin *time.Timer
+		if k.API != 2 {
+			twin = time.AfterFunc(d, func() { res.twin.Store(time.Now().UnixNano()) })
+		}
+		switch k.API {
+		case 0:
+			err = pc.DoDeadline(req, resp, t0.Add(d))
+		case 1:
+			err = pc.DoTimeout(req, resp, d)
+		default:
+			err = pc.Do(req, resp)
+		}
+		t1 := time.Now()
+		if twin != nil {
+			twin.Stop()
+		}
+		hdr := ""
+		bodyOK := false
+		if err == nil {
+			hdr = string(resp.Header.Peek("X-Vp-Id"))
+			bodyOK = bytes.Equal(resp.Body(), c.plans[k.ID].Resp.body)
+		}
+		rmu.Lock()
+		res.t1, res.err, res.hdrID, res.bodyOK, res.returned = t1, err, hdr, bodyOK, true
+		rmu.Unlock()
+		hist.add("call id=%d -> %v hdrID=%s (%.1fms)", k.ID, err, hdr, float64(t1.Sub(t0).Microseconds())/1000)
+		if k.API != 2 {
+			sample()
+		}
+		ReleaseRequest(req)
+		ReleaseResponse(resp)
+	}
 	for _, calls := range c.workers {
-		hasDo := false
-		for _, k := range calls {
-			if k.API == 2 {
-				hasDo = true
-			}
-		}
 		wgAll.Add(1)
-		if !hasDo {
-			wgDeadline.Add(1)
-		}
-		go func(calls []*vpC38Call, hasDo bool) {
+		wgDeadline.Add(1)
+		go func(calls []*vpC38Call) {
 			defer wgAll.Done()
-			if !hasDo {
-				defer wgDeadline.Done()
-			}
+			defer wgDeadline.Done()
 			<-start
 			for _, k := range calls {
-				res := &vpC38Result{call: k}
-				req := AcquireRequest()
-				resp := AcquireResponse()
-				req.SetRequestURI("http://vp.test/r/" + strconv.Itoa(k.ID))
-				req.Header.Set("X-Vp-Id", strconv.Itoa(k.ID))
 				if k.PreUs > 0 {
 					time.Sleep(time.Duration(k.PreUs) * time.Microsecond)
 				}
-				hist.add("call id=%d api=%d deadline=%dms start", k.ID, k.API, k.DeadlineMs)
-				var err error
-				t0 := time.Now()
-				d := time.Duration(k.DeadlineMs) * time.Millisecond
-				rmu.Lock()
-				res.t0, res.deadline = t0, t0.Add(d)
-				results = append(results, res)
-				rmu.Unlock()
-				switch k.API {
-				case 0:
-					err = pc.DoDeadline(req, resp, t0.Add(d))
-				case 1:
-					err = pc.DoTimeout(req, resp, d)
-				default:
-					err = pc.Do(req, resp)
+				if k.API == 2 {
+					// Deadline-less Do is queue pressure only (it may block as long as the origin
+					// stalls): it runs on its own goroutine and never delays a deadline call.
+					wgAll.Add(1)
+					go func(k *vpC38Call) {
+						defer wgAll.Done()
+						oneCall(k)
+					}(k)
+					continue
 				}
-				t1 := time.Now()
-				hdr := ""
-				bodyOK := false
-				if err == nil {
-					hdr = string(resp.Header.Peek("X-Vp-Id"))
-					bodyOK = bytes.Equal(resp.Body(), c.plans[k.ID].Resp.body)
-				}
-				rmu.Lock()
-				res.t0, res.t1, res.deadline, res.err, res.hdrID, res.bodyOK, res.returned = t0, t1, t0.Add(d), err, hdr, bodyOK, true
-				rmu.Unlock()
-				hist.add("call id=%d -> %v hdrID=%s (%.1fms)", k.ID, err, hdr, float64(t1.Sub(t0).Microseconds())/1000)
-				if k.API != 2 {
-					sample()
-				}
-				ReleaseRequest(req)
-				ReleaseResponse(resp)
+				oneCall(k)
 			}
-		}(calls, hasDo)
+		}(calls)
 	}
 	samplerStop := make(chan struct{})
 	samplerDone := make(chan struct{})
@@ -261,12 +272,54 @@ func (c *vpC38Case) run() ([]string, string) {
 	}
 	onTime := waitNet(&wgDeadline, longest+vpC38Slack+500*time.Millisecond)
 	hist.add("deadline workers finished by themselves: %v", onTime)
+	lateStacks := ""
+	if !onTime {
+		buf := make([]byte, 1<<20)
+		buf = buf[:runtime.Stack(buf, true)]
+		var keep []string
+		for _, g := range strings.Split(string(buf), "\n\n") {
+			if strings.Contains(g, "pipelineConnClient") {
+				keep = append(keep, g)
+			}
+		}
+		lateStacks = "goroutines inside the PipelineClient when the deadline calls were overdue:\n" + strings.Join(keep, "\n\n") + "\n"
+	}
 	// Teardown: the origin answers everything promptly from now on and every stall is aborted, so
 	// deadline-less Do calls (and, if the property is broken, stuck deadline calls) can return.
 	close(samplerStop) // PendingRequests() re-creates retired workers, so stop sampling before quiescing
 	<-samplerDone
 	origin.startDrain()
+	// A request that sits unflushed in the client's write buffer (see the report: the pipeline
+	// writer only arms its flush when the queue is empty at write time) leaves the writer only
+	// when another request is written, so keep a trickle of small deadline requests going until
+	// every deadline-less Do has returned. These nudges are not part of any oracle.
+	nudgeStop := make(chan struct{})
+	var nudgeWG sync.WaitGroup
+	for i := 0; i < 2*cfg.MaxConns; i++ {
+		nudgeWG.Add(1)
+		go func(i int) {
+			defer nudgeWG.Done()
+			for n := 0; ; n++ {
+				select {
+				case <-nudgeStop:
+					return
+				default:
+				}
+				req := AcquireRequest()
+				resp := AcquireResponse()
+				id := strconv.Itoa(900000 + i*10000 + n)
+				req.SetRequestURI("http://vp.test/nudge/" + id)
+				req.Header.Set("X-Vp-Id", id)
+				pc.DoTimeout(req, resp, 40*time.Millisecond) //nolint:errcheck
+				ReleaseRequest(req)
+				ReleaseResponse(resp)
+				time.Sleep(5 * time.Millisecond)
+			}
+		}(i)
+	}
 	allDone := waitNet(&wgAll, 10*time.Second)
+	close(nudgeStop)
+	nudgeWG.Wait()
 	retired := false
 	if allDone {
 		retired = vpC04QuiescePipeline(pc, origin, 5*time.Second)
@@ -280,7 +333,7 @@ func (c *vpC38Case) run() ([]string, string) {
 		var stuck []string
 		rmu.Lock()
 		for _, r := range results {
-			if !r.returned {
+			if !r.returned && r.call.API != 2 { // deadline-less Do calls are outside C38: they may legitimately block on a stalled origin
 				stuck = append(stuck, fmt.Sprintf("id=%d api=%d deadline=%dms seenByOrigin=%d", r.call.ID, r.call.API, r.call.DeadlineMs, origin.seenCount(r.call.ID)))
 			}
 		}
@@ -293,7 +346,11 @@ func (c *vpC38Case) run() ([]string, string) {
 				stacks = append(stacks, g)
 			}
 		}
-		viol = append(viol, fmt.Sprintf("calls had still not returned 10 s after the origin started to answer everything: %v\n%s", stuck, strings.Join(stacks, "\n\n")))
+		if len(stuck) > 0 {
+			viol = append(viol, fmt.Sprintf("deadline calls had still not returned 10 s after the origin started to answer everything: %v\n%s", stuck, strings.Join(stacks, "\n\n")))
+		} else {
+			vpNote("C38: deadline-less Do calls (outside the property) were still blocked 10 s after the origin started draining in some workloads")
+		}
 	} else if !retired {
 		vpNote("C38: a PipelineClient worker did not retire within 5s of idling (goroutine left behind)")
 	}
@@ -327,8 +384,16 @@ func (c *vpC38Case) run() ([]string, string) {
 		if k.API == 2 {
 			continue
 		}
+		// Lateness counts from the moment a control timer with the same deadline actually fired in
+		// this process (not yet fired when the call returned = on time), minus measured starvation.
+		ref := r.deadline
+		if tw := r.twin.Load(); tw == 0 {
+			continue
+		} else if t := time.Unix(0, tw); t.After(ref) {
+			ref = t
+		}
 		late := r.t1.Sub(r.deadline)
-		netLate := late - beat.lost(r.deadline, r.t1)
+		netLate := r.t1.Sub(ref) - beat.lost(ref, r.t1)
 		if netLate > vpC38Slack {
 			viol = append(viol, fmt.Sprintf("call id=%d (deadline %dms) returned %v only %v after its deadline (%v net of starvation; slack %v)",
 				k.ID, k.DeadlineMs, r.err, late, netLate, vpC38Slack))
@@ -373,7 +438,7 @@ func (c *vpC38Case) run() ([]string, string) {
 	if len(viol) == 0 {
 		return nil, ""
 	}
-	return viol, fmt.Sprintf("%d violation(s):\n  %s\nconfig: %+v\nhistory:\n%s", len(viol), strings.Join(viol, "\n  "), cfg, hist.dump(3000))
+	return viol, fmt.Sprintf("%d violation(s):\n  %s\nconfig: %+v\n%shistory:\n%s", len(viol), strings.Join(viol, "\n  "), cfg, lateStacks, hist.dump(3000))
 }
 
 func TestVP_C38_Deadlines(t *testing.T) {
